@@ -630,9 +630,9 @@ head and the block store are untouched, the header store is the old one extended
 `header_head` is either unchanged (together with the header MMR) or it is the **last** header of
 the batch, which then has strictly more total difficulty than the old `header_head`.  A rejected
 batch changes nothing (`sync_batch_rejected_unchanged`). -/
-theorem sync_batch_sound (n : HNode) (skip : Bool) (sh : Tip) (batch : List FHdr) (n' : HNode)
-    (r : Bool) (h : processBlockHeaders n skip sh batch = .ok (n', r)) :
-    BatchRules n.ct skip n.hdrs batch ∧ n'.head = n.head ∧ n'.blocks = n.blocks ∧ n'.ct = n.ct ∧
+theorem sync_batch_sound (n : HNode) (opts : Opts) (sh : Tip) (batch : List FHdr) (n' : HNode)
+    (r : Bool) (h : processBlockHeaders n opts sh batch = .ok (n', r)) :
+    BatchRules n.ct opts.skipPow n.hdrs batch ∧ n'.head = n.head ∧ n'.blocks = n.blocks ∧ n'.ct = n.ct ∧
     (batch = [] ∨ n'.hdrs = batch.reverse ++ n.hdrs) ∧
     ((n'.headerHead = n.headerHead ∧ n'.hmmr = n.hmmr) ∨
       ∃ last, batch.getLast? = some last ∧ n'.headerHead = Tip.ofHdr last ∧
@@ -649,7 +649,7 @@ theorem sync_batch_sound (n : HNode) (skip : Bool) (sh : Tip) (batch : List FHdr
   · cases h
   rename_i s hs
   obtain ⟨hok, hs'⟩ := (validateLoop_ok_iff batch n.hdrs s).mp hs
-  have hrules := (batchOk_iff_rules n.ct skip batch n.hdrs).mp hok
+  have hrules := (batchOk_iff_rules n.ct opts.skipPow batch n.hdrs).mp hok
   split at h
   · cases h
   split at h
@@ -665,21 +665,21 @@ theorem sync_batch_sound (n : HNode) (skip : Bool) (sh : Tip) (batch : List FHdr
     exact ⟨hrules, rfl, rfl, rfl, .inr hs', .inl ⟨rfl, rfl⟩⟩
 
 /-- a batch that is refused leaves the node exactly as it was (the batch is dropped) -/
-theorem sync_batch_rejected_unchanged (n : HNode) (skip : Bool) (sh : Tip) (batch : List FHdr)
-    (e : NErr) (h : processBlockHeaders n skip sh batch = .error e) :
-    syncStep n skip sh batch = n := by
+theorem sync_batch_rejected_unchanged (n : HNode) (opts : Opts) (sh : Tip) (batch : List FHdr)
+    (e : NErr) (h : processBlockHeaders n opts sh batch = .error e) :
+    syncStep n opts sh batch = n := by
   simp [syncStep, h]
 
 /-- `header_head` after a batch, whatever its outcome: unchanged, or the last header of the
 batch with more work, all of whose headers obeyed the rules -/
-theorem sync_step_head (n : HNode) (skip : Bool) (sh : Tip) (batch : List FHdr) :
-    (syncStep n skip sh batch).headerHead = n.headerHead ∨
-    ∃ last, batch.getLast? = some last ∧ (syncStep n skip sh batch).headerHead = Tip.ofHdr last ∧
-      n.headerHead.totalDiff < last.h.totalDiff ∧ BatchRules n.ct skip n.hdrs batch := by
+theorem sync_step_head (n : HNode) (opts : Opts) (sh : Tip) (batch : List FHdr) :
+    (syncStep n opts sh batch).headerHead = n.headerHead ∨
+    ∃ last, batch.getLast? = some last ∧ (syncStep n opts sh batch).headerHead = Tip.ofHdr last ∧
+      n.headerHead.totalDiff < last.h.totalDiff ∧ BatchRules n.ct opts.skipPow n.hdrs batch := by
   unfold syncStep
   split
   · rename_i n' r h
-    obtain ⟨hr, _, _, _, _, hh⟩ := sync_batch_sound n skip sh batch n' r h
+    obtain ⟨hr, _, _, _, _, hh⟩ := sync_batch_sound n opts sh batch n' r h
     rcases hh with hh | ⟨last, h1, h2, h3⟩
     · exact .inl hh.1
     · exact .inr ⟨last, h1, h2, h3, hr⟩
@@ -689,14 +689,14 @@ theorem sync_step_head (n : HNode) (skip : Bool) (sh : Tip) (batch : List FHdr) 
 genesis, or already on the current header chain, or its `prev_root` was compared with the root of
 the header MMR rewound to its parent (`rewind_and_apply_header_fork` → `validate_root`); the same
 holds for every stored header re-applied on the way. -/
-theorem sync_batch_roots (n : HNode) (skip : Bool) (sh : Tip) (batch : List FHdr) (n' : HNode)
+theorem sync_batch_roots (n : HNode) (opts : Opts) (sh : Tip) (batch : List FHdr) (n' : HNode)
     (r : Bool) (last : FHdr) (hl : batch.getLast? = some last)
-    (h : processBlockHeaders n skip sh batch = .ok (n', r)) :
+    (h : processBlockHeaders n opts sh batch = .ok (n', r)) :
     ∃ e0, extInit n'.hdrs n.hmmr = some e0 ∧
       (last.h.height = 0 ∨ e0.onChain n'.hdrs last.hash last.h.height = some true ∨
         last.rootOk = true) := by
   have hne : batch ≠ [] := by intro hb; subst hb; cases hl
-  obtain ⟨_, _, _, _, hstore, _⟩ := sync_batch_sound n skip sh batch n' r h
+  obtain ⟨_, _, _, _, hstore, _⟩ := sync_batch_sound n opts sh batch n' r h
   have hstore := hstore.resolve_left hne
   unfold processBlockHeaders at h
   rw [hl] at h
@@ -760,9 +760,9 @@ example : validateHeader { exCtx with prev := none } exHdr = .error .Orphan := b
 the test option `Options::SKIP_POW`; see `known_hash_moves_head_under_skip_pow` for the
 kernel-checked counter-example, which the harness reproduces on the real `Chain`):
 
-    theorem known_hash_cannot_move_head (n : HNode) (skip : Bool) (sh : Tip) (pre : List FHdr)
+    theorem known_hash_cannot_move_head (n : HNode) (opts : Opts) (sh : Tip) (pre : List FHdr)
         (k' k : FHdr) (hstored : getHdr n.hdrs k'.hash = some k) (hdiff : ¬ SameContent k' k) :
-        (syncStep n skip sh (pre ++ [k'])).headerHead.totalDiff = n.headerHead.totalDiff
+        (syncStep n opts sh (pre ++ [k'])).headerHead.totalDiff = n.headerHead.totalDiff
 
 `process_block_headers` has no "already known" check and `add_block_header` is keyed by a hash
 that covers the proof nonces only; what keeps a re-sent known header with changed fields out is
@@ -776,33 +776,35 @@ content; `hk`: the stored copy is the one that verified). -/
 known or new — whose last header `k'` has a hash that is already stored with different fields is
 refused as a whole: `header_head` (hash, height and total difficulty), `head`, the header MMR and
 the stored header for that hash are exactly what they were. -/
-theorem known_hash_cannot_move_head_partial (n : HNode) (sh : Tip) (pre : List FHdr) (k' k : FHdr)
+theorem known_hash_cannot_move_head_partial (n : HNode) (opts : Opts) (hs : opts.skipPow = false)
+    (sh : Tip) (pre : List FHdr) (k' k : FHdr)
     (hstored : getHdr n.hdrs k'.hash = some k) (hdiff : ¬ SameContent k' k)
     (hk : k.powOk = true) (hbind : k.powOk = true → k'.powOk = true → SameContent k' k) :
-    (∃ e, processBlockHeaders n false sh (pre ++ [k']) = .error e) ∧
-    syncStep n false sh (pre ++ [k']) = n ∧
-    (syncStep n false sh (pre ++ [k'])).headerHead.totalDiff = n.headerHead.totalDiff ∧
-    getHdr (syncStep n false sh (pre ++ [k'])).hdrs k'.hash = some k := by
+    (∃ e, processBlockHeaders n opts sh (pre ++ [k']) = .error e) ∧
+    syncStep n opts sh (pre ++ [k']) = n ∧
+    (syncStep n opts sh (pre ++ [k'])).headerHead.totalDiff = n.headerHead.totalDiff ∧
+    getHdr (syncStep n opts sh (pre ++ [k'])).hdrs k'.hash = some k := by
   have hp : k'.powOk = false := by
     cases hp : k'.powOk with
     | false => rfl
     | true => exact absurd (hbind hk hp) hdiff
-  obtain ⟨e, he⟩ := validateLoop_error_of (ct := n.ct) (skip := false) pre k' [] n.hdrs
-    (fun s' => validateHeader_badpow n.ct s' k' hp)
-  have herr : processBlockHeaders n false sh (pre ++ [k']) = .error (.hdr e) := by
+  obtain ⟨e, he⟩ := validateLoop_error_of (ct := n.ct) (skip := opts.skipPow) pre k' [] n.hdrs
+    (fun s' => by rw [hs]; exact validateHeader_badpow n.ct s' k' hp)
+  have herr : processBlockHeaders n opts sh (pre ++ [k']) = .error (.hdr e) := by
     simp [processBlockHeaders, he]
-  have hstep := sync_batch_rejected_unchanged n false sh _ _ herr
+  have hstep := sync_batch_rejected_unchanged n opts sh _ _ herr
   exact ⟨⟨_, herr⟩, hstep, by rw [hstep], by rw [hstep]; exact hstored⟩
 
 /-- the single-header path (`process_block_header`) may answer `Ok` for such a copy ("already
 known") but never takes it for something new: the node is unchanged -/
-theorem known_hash_header_path_unchanged (n : HNode) (k' : FHdr) (hp : k'.powOk = false) (n' : HNode)
-    (h : nodeProcessBlockHeader n false k' = .ok n') : n' = n := by
-  have happ : ∀ prev, pbhApply n false k' prev ≠ .ok n' := by
+theorem known_hash_header_path_unchanged (n : HNode) (opts : Opts) (hs : opts.skipPow = false)
+    (k' : FHdr) (hp : k'.powOk = false) (n' : HNode)
+    (h : nodeProcessBlockHeader n opts k' = .ok n') : n' = n := by
+  have happ : ∀ prev, pbhApply n opts k' prev ≠ .ok n' := by
     intro prev hc
     unfold pbhApply at hc
     obtain ⟨e, he⟩ := validateHeader_badpow n.ct n.hdrs k' hp
-    rw [he] at hc
+    rw [hs, he] at hc
     cases hc
   unfold nodeProcessBlockHeader at h
   split at h
@@ -816,15 +818,15 @@ theorem known_hash_header_path_unchanged (n : HNode) (k' : FHdr) (hp : k'.powOk 
   · exact absurd h (happ _)
 
 /-- the block path (`process_block`) refuses it and leaves the node unchanged -/
-theorem known_hash_block_path_rejected (n : HNode) (k' : FHdr) (bodyOk : Bool)
-    (hp : k'.powOk = false) :
-    (nodeProcessBlock n false k' bodyOk).1 = n ∧
-    ∃ e, (nodeProcessBlock n false k' bodyOk).2 = .error e := by
+theorem known_hash_block_path_rejected (n : HNode) (opts : Opts) (hs : opts.skipPow = false)
+    (k' : FHdr) (bodyOk : Bool) (hp : k'.powOk = false) :
+    (nodeProcessBlock n opts k' bodyOk).1 = n ∧
+    ∃ e, (nodeProcessBlock n opts k' bodyOk).2 = .error e := by
   unfold nodeProcessBlock
   split
   · exact ⟨rfl, _, rfl⟩
   rename_i n1 h1
-  have := known_hash_header_path_unchanged n k' hp n1 h1
+  have := known_hash_header_path_unchanged n opts hs k' hp n1 h1
   subst this
   split
   · exact ⟨rfl, _, rfl⟩
@@ -836,20 +838,20 @@ theorem known_hash_block_path_rejected (n : HNode) (k' : FHdr) (bodyOk : Bool)
   · exact ⟨rfl, _, rfl⟩
   split
   · exact ⟨rfl, _, rfl⟩
-  simp [hp]
+  simp [hp, hs]
 
 /-- **`process_block_header` at node level.**  An `Ok` either changed nothing (the "already known"
 short-cuts) or stored a header that obeys every rule against its stored parent and whose
 `prev_root` matched the header MMR rewound to that parent; `header_head` is then unchanged or
 this header, with more work. -/
-theorem node_process_block_header_sound (n : HNode) (skip : Bool) (f : FHdr) (n' : HNode)
-    (h : nodeProcessBlockHeader n skip f = .ok n') :
-    n' = n ∨ (HeaderRules (ctxFor n.ct skip n.hdrs f) f.h ∧ (f.h.height = 0 ∨ f.rootOk = true) ∧
+theorem node_process_block_header_sound (n : HNode) (opts : Opts) (f : FHdr) (n' : HNode)
+    (h : nodeProcessBlockHeader n opts f = .ok n') :
+    n' = n ∨ (HeaderRules (ctxFor n.ct opts.skipPow n.hdrs f) f.h ∧ (f.h.height = 0 ∨ f.rootOk = true) ∧
       n'.hdrs = f :: n.hdrs ∧ n'.head = n.head ∧ n'.blocks = n.blocks ∧
       (n'.headerHead = n.headerHead ∨
         (n'.headerHead = Tip.ofHdr f ∧ n.headerHead.totalDiff < f.h.totalDiff))) := by
-  have happ : ∀ prev, pbhApply n skip f prev = .ok n' →
-      (HeaderRules (ctxFor n.ct skip n.hdrs f) f.h ∧ (f.h.height = 0 ∨ f.rootOk = true) ∧
+  have happ : ∀ prev, pbhApply n opts f prev = .ok n' →
+      (HeaderRules (ctxFor n.ct opts.skipPow n.hdrs f) f.h ∧ (f.h.height = 0 ∨ f.rootOk = true) ∧
       n'.hdrs = f :: n.hdrs ∧ n'.head = n.head ∧ n'.blocks = n.blocks ∧
       (n'.headerHead = n.headerHead ∨
         (n'.headerHead = Tip.ofHdr f ∧ n.headerHead.totalDiff < f.h.totalDiff))) := by
@@ -916,24 +918,24 @@ example : (ctxFor .automatedTesting false exNode.hdrs exX).window =
 example : BatchRules .automatedTesting false [exG] [exP, exX] :=
   (batchOk_iff_rules _ _ _ _).mp (by simp only [BatchOk]; decide +kernel)
 /-- an honest batch moves `header_head` to its last header (hypotheses of `sync_batch_sound`) -/
-example : (syncStep exNode false exNode.headerHead [exX]).headerHead = Tip.ofHdr exX := by
+example : (syncStep exNode Opts.NONE exNode.headerHead [exX]).headerHead = Tip.ofHdr exX := by
   decide +kernel
 /-- re-sending the unmodified known header is accepted and harmless -/
-example : errOf (processBlockHeaders exNode false exNode.headerHead [exP]) = none := by decide +kernel
-example : (syncStep exNode false exNode.headerHead [exP]).headerHead = exNode.headerHead ∧
-    getHdr (syncStep exNode false exNode.headerHead [exP]).hdrs 101 = some exP := by decide +kernel
+example : errOf (processBlockHeaders exNode Opts.NONE exNode.headerHead [exP]) = none := by decide +kernel
+example : (syncStep exNode Opts.NONE exNode.headerHead [exP]).headerHead = exNode.headerHead ∧
+    getHdr (syncStep exNode Opts.NONE exNode.headerHead [exP]).hdrs 101 = some exP := by decide +kernel
 /-- the mutated copy of the known header: alone, after a known header, after a new honest header
 (hypotheses of `known_hash_cannot_move_head_partial`) -/
 example : getHdr exNode.hdrs exP'.hash = some exP ∧ exP.powOk = true ∧ exP'.powOk = false := by
   decide +kernel
-example : errOf (processBlockHeaders exNode false exNode.headerHead [exP']) = some (.hdr .InvalidPow) := by
+example : errOf (processBlockHeaders exNode Opts.NONE exNode.headerHead [exP']) = some (.hdr .InvalidPow) := by
   decide +kernel
-example : errOf (processBlockHeaders exNode false exNode.headerHead [exP, exP']) = some (.hdr .InvalidPow) := by
+example : errOf (processBlockHeaders exNode Opts.NONE exNode.headerHead [exP, exP']) = some (.hdr .InvalidPow) := by
   decide +kernel
-example : errOf (processBlockHeaders exNode false exNode.headerHead [exX, exP']) = some (.hdr .InvalidPow) := by
+example : errOf (processBlockHeaders exNode Opts.NONE exNode.headerHead [exX, exP']) = some (.hdr .InvalidPow) := by
   decide +kernel
 /-- the single-header path answers `Ok` for it and changes nothing -/
-example : (nodeProcessBlockHeader exNode false exP').toOption.map (·.headerHead) =
+example : (nodeProcessBlockHeader exNode Opts.NONE exP').toOption.map (·.headerHead) =
     some exNode.headerHead := by decide +kernel
 
 /-- **The full statement fails under `SKIP_POW`**: the mutated copy of the known `header_head`
@@ -942,9 +944,99 @@ the stored header for that hash is replaced. -/
 theorem known_hash_moves_head_under_skip_pow :
     getHdr exNode.hdrs exP'.hash = some exP ∧ exP'.h ≠ exP.h ∧
     exNode.headerHead.totalDiff = 4 ∧
-    (syncStep exNode true exNode.headerHead [exP']).headerHead.totalDiff = 50 ∧
-    (syncStep exNode true exNode.headerHead [exP']).headerHead.hash = exNode.headerHead.hash ∧
-    getHdr (syncStep exNode true exNode.headerHead [exP']).hdrs 101 = some exP' := by
+    (syncStep exNode Opts.SKIP_POW exNode.headerHead [exP']).headerHead.totalDiff = 50 ∧
+    (syncStep exNode Opts.SKIP_POW exNode.headerHead [exP']).headerHead.hash = exNode.headerHead.hash ∧
+    getHdr (syncStep exNode Opts.SKIP_POW exNode.headerHead [exP']).hdrs 101 = some exP' := by
+  decide +kernel
+
+/-! ### the proof of work is checked under every option except `SKIP_POW`
+
+`pipe.rs` reads `ctx.opts` only as `contains(Options::SKIP_POW)`; the node itself calls the chain
+with `NONE` (peers), `SYNC` (sync) and `MINE` (own miner / stratum, which only compares
+`to_difficulty()` with the share difficulty and relies on the chain for the cycle check). -/
+
+/-- the header paths never change the chain type -/
+theorem node_process_block_header_ct (n : HNode) (opts : Opts) (f : FHdr) (n' : HNode)
+    (h : nodeProcessBlockHeader n opts f = .ok n') : n'.ct = n.ct := by
+  rcases node_process_block_header_sound n opts f n' h with rfl | hh
+  · rfl
+  · have happ : ∀ prev, pbhApply n opts f prev = .ok n' → n'.ct = n.ct := by
+      intro prev h
+      unfold pbhApply at h
+      repeat' split at h
+      all_goals first | cases h; rfl | cases h
+    unfold nodeProcessBlockHeader at h
+    split at h
+    · cases h; rfl
+    split at h
+    · cases h
+    split at h
+    · split at h
+      · exact happ _ h
+      · cases h; rfl
+    · exact happ _ h
+
+/-- **`pow_checked_unless_skip_pow`.**  For every option set that does not contain `SKIP_POW`
+(`NONE`, `SYNC`, `MINE` and their unions): every header of an accepted batch, every header the
+single-header path stores, and every block `process_block` accepts has allowed edge bits and a
+proof the cycle verifier accepted for it; on the header paths the claimed total difficulty is
+moreover the parent's plus exactly the network difficulty, which the proof's own difficulty
+reaches. -/
+theorem pow_checked_unless_skip_pow (n : HNode) (opts : Opts) (hs : opts.skipPow = false) :
+    (∀ sh batch n' r, processBlockHeaders n opts sh batch = .ok (n', r) →
+      ∀ pre f post, batch = pre ++ f :: post → PowRule n.ct (pre.reverse ++ n.hdrs) f) ∧
+    (∀ f n', nodeProcessBlockHeader n opts f = .ok n' → n' = n ∨ PowRule n.ct n.hdrs f) ∧
+    (∀ f bodyOk n', nodeProcessBlock n opts f bodyOk = (n', .ok ()) →
+      (isPrimary n.ct f.h.edgeBits = true ∨ isSecondary f.h.edgeBits = true) ∧ f.powOk = true) := by
+  refine ⟨?_, ?_, ?_⟩
+  · intro sh batch n' r h pre f post hb
+    obtain ⟨hr, _⟩ := sync_batch_sound n opts sh batch n' r h
+    rw [hs, hb] at hr
+    exact powRule_of_rules (batchRules_mem pre n.hdrs f post hr)
+  · intro f n' h
+    rcases node_process_block_header_sound n opts f n' h with h1 | h1
+    · exact .inl h1
+    · right
+      have := h1.1
+      rw [hs] at this
+      exact powRule_of_rules this
+  · intro f bodyOk n' h
+    unfold nodeProcessBlock at h
+    split at h
+    · cases h
+    rename_i n1 h1
+    have hct := node_process_block_header_ct n opts f n1 h1
+    split at h
+    · cases h
+    split at h
+    · cases h
+    split at h
+    · cases h
+    split at h
+    · cases h
+    split at h
+    · cases h
+    rename_i hedge
+    split at h
+    · cases h
+    rename_i hpow
+    rw [hs, hct] at hedge
+    rw [hs] at hpow
+    refine ⟨?_, by simpa using hpow⟩
+    cases hA : isPrimary n.ct f.h.edgeBits <;> cases hB : isSecondary f.h.edgeBits <;> simp_all
+
+/-- non-vacuity: the honest header is accepted and the same header with a proof that is not a
+cycle (`powOk = false`) is refused under `NONE`, `SYNC`, `MINE` and `SYNC | MINE`; only `SKIP_POW`
+lets it through -/
+example : ∀ o ∈ [Opts.NONE, Opts.SYNC, Opts.MINE, ⟨6⟩],
+    errOf (processBlockHeaders exNode o exNode.headerHead [exX]) = none ∧
+    errOf (processBlockHeaders exNode o exNode.headerHead [{ exX with powOk := false }]) =
+      some (.hdr .InvalidPow) ∧
+    errOf (nodeProcessBlockHeader exNode o { exX with powOk := false }) = some (.hdr .InvalidPow) ∧
+    errOf (nodeProcessBlock exNode o { exX with powOk := false } true).2 = some (.hdr .InvalidPow) ∧
+    errOf (nodeProcessBlockHeader exNode o { exX with h := { exX.h with edgeBits := 9 } }) =
+      some (.hdr .LowEdgebits) := by decide +kernel
+example : errOf (processBlockHeaders exNode Opts.SKIP_POW exNode.headerHead [{ exX with powOk := false }]) = none := by
   decide +kernel
 
 /-! ## the future-time limit under thread-local configuration (`core/src/global.rs`)
